@@ -390,6 +390,8 @@ class Mode(LogMixin):
 
         # Clean up the mode handlers and devices
         self._remove_mode_event_handlers()
+        # delayed control events may have been added while the mode was stopping
+        self.delay.clear()
         self._remove_mode_devices()
         self._cleanup_pending = False
 
